@@ -90,8 +90,21 @@ class World:
             self.ref[tag] = {"bin": b.read_bytes(), "cbin": b.with_suffix(".cbin").read_bytes(),
                              "ch": json.loads(b.with_suffix(".ch").read_text())}
         import spikeglx
-        with spikeglx.Reader(self.root / "refC" / f"{STEM}.bin") as sr:      # the recording's own directory, nothing else in it
-            self.s2v = np.array(sr.sample2volts)
+        # the recording's own directory, nothing else in it.  What the library gives here is observed defensively: if the
+        # Reader of the plain data file cannot be built or does not give one finite factor per channel, that is a verdict
+        # (new_world reports it: ResolveSame), not a failure of the machinery
+        self.s2v, self.s2v_exc = None, ""
+        try:
+            with spikeglx.Reader(self.root / "refC" / f"{STEM}.bin") as sr:
+                got = sr.sample2volts
+            s2v = np.array(got)
+            if not (isinstance(got, np.ndarray) and s2v.shape == (self.nc,) and s2v.dtype.kind == "f" and np.all(np.isfinite(s2v))):
+                self.s2v_exc = (f"sample2volts is {type(got).__name__} shape={getattr(got, 'shape', None)} "
+                                f"dtype={getattr(got, 'dtype', None)}, not one finite factor for each of the {self.nc} channels")
+            else:
+                self.s2v = s2v
+        except Exception as e:  # noqa
+            self.s2v_exc = f"{type(e).__name__}: {e}"
 
     def paths(self, d, here=False):
         d = Path(d)
@@ -179,21 +192,57 @@ class World:
             if not f.exists():
                 out[n] = "A"
                 continue
-            if n in ("bin", "sbin", "stmp"):
-                b = f.read_bytes()
-                out[n] = "C" if b == self.ref["C"]["bin"] else "S" if b == self.ref["S"]["bin"] else "P"
-            elif n in ("cbin", "cbin_tmp"):
-                b = f.read_bytes()
-                out[n] = "C" if b == self.ref["C"]["cbin"] else "S" if b == self.ref["S"]["cbin"] else "P"
-            elif n == "ch":
-                try:
-                    j = json.loads(f.read_text())
-                except Exception:
-                    j = None
-                out[n] = "C" if j == self.ref["C"]["ch"] else "S" if j == self.ref["S"]["ch"] else "P"
-            else:
-                out[n] = "C" if f.read_text() == self.meta_text else "P"
+            try:
+                # (something under the name that cannot be read as the file it should be - a directory, bytes that are no
+                # text - is there and is not the complete file: "P")
+                if n in ("bin", "sbin", "stmp"):
+                    b = f.read_bytes()
+                    out[n] = "C" if b == self.ref["C"]["bin"] else "S" if b == self.ref["S"]["bin"] else "P"
+                elif n in ("cbin", "cbin_tmp"):
+                    b = f.read_bytes()
+                    out[n] = "C" if b == self.ref["C"]["cbin"] else "S" if b == self.ref["S"]["cbin"] else "P"
+                elif n == "ch":
+                    try:
+                        j = json.loads(f.read_text())
+                    except Exception:
+                        j = None
+                    out[n] = "C" if j == self.ref["C"]["ch"] else "S" if j == self.ref["S"]["ch"] else "P"
+                else:
+                    out[n] = "C" if f.read_text() == self.meta_text else "P"
+            except (OSError, UnicodeDecodeError):
+                out[n] = "A" if not os.path.lexists(f) else "P"
         return out
+
+
+def new_world(ctx, root, ns, rng, nsites=4):
+    """a World; if the Reader of its plain data file (a directory with the .bin and the .meta and nothing else) could not
+    be observed, that is reported as the verdict it is: opening through the data file does not resolve to the recording"""
+    world = World(root, ns, rng, nsites=nsites)
+    if world.s2v_exc:
+        ctx.violation("compress:ResolveSame:reference", f"Reader(<data file>) of a {ns} x {nsites + 1} recording alone in its directory "
+                      f"does not expose the recording: {world.s2v_exc}", {"reference": [ns, nsites]})
+    return world
+
+
+def _is(got, want):
+    """what the library returned is an array with the shape and the values of `want` (anything else - None, a list, another
+    shape, values that cannot be compared - is "differs", never an error of the harness)"""
+    try:
+        return isinstance(got, np.ndarray) and isinstance(want, np.ndarray) and got.shape == want.shape and bool(np.array_equal(got, want))
+    except Exception:
+        return False
+
+
+def _shp(x):
+    return tuple(x.shape) if isinstance(x, np.ndarray) else f"<{type(x).__name__}>"
+
+
+def _close(ctx, sr, what, scen):
+    """close() of a Reader the harness is done with: raising is a verdict (the reader cannot be used as documented)"""
+    try:
+        sr.close()
+    except Exception as e:  # noqa
+        ctx.violation("compress:Transparent:raise", f"{what}: close() raised {type(e).__name__}: {e}", scen)
 
 
 @contextlib.contextmanager
@@ -599,7 +648,7 @@ def run(ctx):
     lens = [12, 3, 7] if ctx.quick else [12, 3, 7, 14, 5, 10]
     vr = random.Random(ctx.seed * 7919 + 11)        # how the calls are made (VAR) and which histories are added
     for li, ns in enumerate(lens):
-        world = World(Path(ctx.scratch) / f"w{ns}", ns, rng)
+        world = new_world(ctx, Path(ctx.scratch) / f"w{ns}", ns, rng)
         # directory names that contain the suffixes the code looks for
         d = Path(ctx.scratch) / (f"dir{ns}" if li == 0 else f"rec{ns}.cbin" if li % 2 else f"x{ns}.bin.meta")
         pres = inits if li == 0 else random.Random(ctx.seed + ns).sample(inits, 8 if ctx.quick else 16)
@@ -666,15 +715,32 @@ def transparency(ctx, rng):
     n_eval = 0
     for ns, cs in sorted(by_ns.items()):
         for nsites in ([4] if ctx.quick else [4, 1, 9]) + ([384] if ns in (7, 12) else []):
-            world = World(Path(ctx.scratch) / f"t{ns}_{nsites}", ns, rng, nsites=nsites)
+            world = new_world(ctx, Path(ctx.scratch) / f"t{ns}_{nsites}", ns, rng, nsites=nsites)
             d = Path(ctx.scratch) / f"tdir{ns}_{nsites}"
             st = {n: "A" for n in NAMES}
             st.update({"bin": "C", "cbin": "C", "ch": "C", "meta": "C"})
             p = world.setup(d, st)
-            sb, sc = spikeglx.Reader(p["bin"]), spikeglx.Reader(p["cbin"])
-            full = world.data.astype(np.float32) * sb.sample2volts[None, :]
-            if sb.shape != sc.shape:
-                ctx.violation("compress:Transparent:shape", f"shape differs bin {sb.shape} cbin {sc.shape} ns={ns}", {"ns": ns})
+            scen0 = {"ns": ns, "nsites": nsites}
+            sb = sc = None
+            try:
+                # (opening the two forms and looking at their shape and factors: whatever goes wrong here comes from the
+                # code under test)
+                sb, sc = spikeglx.Reader(p["bin"]), spikeglx.Reader(p["cbin"])
+                full = world.data.astype(np.float32) * sb.sample2volts[None, :]
+                if not (isinstance(full, np.ndarray) and full.shape == world.data.shape):
+                    raise TypeError(f"Reader(bin).sample2volts has shape {_shp(sb.sample2volts)}")
+                shb, shc = sb.shape, sc.shape
+                differs = bool(shb != shc)
+            except Exception as e:  # noqa
+                ctx.violation("compress:Transparent:raise", f"opening the .bin and the .cbin of a {ns} x {nsites + 1} recording (shape, "
+                              f"sample2volts): {type(e).__name__}: {e}", scen0)
+                for r_ in (sb, sc):
+                    if r_ is not None:
+                        _close(ctx, r_, f"ns={ns} nc={nsites + 1}", scen0)
+                shutil.rmtree(d, ignore_errors=True)
+                continue
+            if differs:
+                ctx.violation("compress:Transparent:shape", f"shape differs bin {shb} cbin {shc} ns={ns}", {"ns": ns})
             for c in cs:
                 a, b, s = (None if x == 999 else x for x in (c["start"], c["stop"], c["step"]))
                 sel = slice(a, b, s)
@@ -688,16 +754,16 @@ def transparency(ctx, rng):
                     ctx.violation("compress:Transparent:raise", f"slice {sel} ns={ns}: {type(e).__name__}: {e}",
                                   {"ns": ns, "slice": [c["start"], c["stop"], c["step"]]})
                     continue
-                if gb.shape != want.shape or not np.array_equal(gb, want):
+                if not _is(gb, want):
                     ctx.violation("bin:slice", f"Reader(bin)[{sel}] ns={ns} differs from NumPy semantics "
-                                  f"(rows {exp_rows[:6]}..): shape {gb.shape} vs {want.shape}", {"ns": ns, "slice": [c["start"], c["stop"], c["step"]]})
-                if gc.shape != gb.shape or not np.array_equal(gc, gb):
+                                  f"(rows {exp_rows[:6]}..): shape {_shp(gb)} vs {want.shape}", {"ns": ns, "slice": [c["start"], c["stop"], c["step"]]})
+                if not _is(gc, gb if isinstance(gb, np.ndarray) else want):
                     key = "cbin:negative-step-sample-slice" if (s is not None and s < 0) else "cbin:slice"
-                    ctx.violation(key, f"Reader(cbin)[{sel}] != Reader(bin)[{sel}] ns={ns} chunk={CHUNK}: shapes {gc.shape} vs {gb.shape}",
+                    ctx.violation(key, f"Reader(cbin)[{sel}] != Reader(bin)[{sel}] ns={ns} chunk={CHUNK}: shapes {_shp(gc)} vs {_shp(gb)}",
                                   {"ns": ns, "slice": [c["start"], c["stop"], c["step"]]})
             n_eval += other_selectors(ctx, world, p, sb, sc, full, cs if not ctx.quick else cs[(ns + nsites) % 3::3])
-            sb.close()
-            sc.close()
+            _close(ctx, sb, f"Reader(bin) ns={ns} nc={nsites + 1}", scen0)
+            _close(ctx, sc, f"Reader(cbin) ns={ns} nc={nsites + 1}", scen0)
             shutil.rmtree(d, ignore_errors=True)
     ctx.count(n_eval, key=("slices", len(cases)))
     ctx.cov["slice_cases"] = len(cases)
@@ -708,20 +774,26 @@ def transparency(ctx, rng):
     shapes = [(ns, nsites) for ns in ([1, 4, 5, 6, 11] if ctx.quick else list(range(1, 15))) for nsites in ([1, 4] if ctx.quick else [1, 2, 4, 17])]
     shapes += [(13, 384)]
     for ns, nsites in shapes:
-        world = World(Path(ctx.scratch) / f"r{ns}_{nsites}", ns, rng, nsites=nsites)
+        world = new_world(ctx, Path(ctx.scratch) / f"r{ns}_{nsites}", ns, rng, nsites=nsites)
         d = Path(ctx.scratch) / f"rdir{ns}_{nsites}"
         st = {n: "A" for n in NAMES}
         st.update({"bin": "C", "meta": "C"})
         p = world.setup(d, st)
-        sr = sg.Reader(p["bin"])
-        sr.compress_file(keep_original=False, **world.kw)
-        mid = world.project(d)
-        sr.close()
-        sr = sg.Reader(p["cbin"])
-        sr.decompress_file(keep_original=False, n_threads=1)
-        sr.close()
-        end = world.project(d)
         ctx.count(1, key=("roundtrip", ns, nsites))
+        try:
+            sr = sg.Reader(p["bin"])
+            sr.compress_file(keep_original=False, **world.kw)
+            mid = world.project(d)
+            sr.close()
+            sr = sg.Reader(p["cbin"])
+            sr.decompress_file(keep_original=False, n_threads=1)
+            sr.close()
+        except Exception as e:  # noqa  (nobody injected a fault here)
+            ctx.violation("compress:UnexpectedException", f"compress_file(keep_original=False) -> decompress_file(keep_original=False) "
+                          f"ns={ns} nc={nsites + 1}: {type(e).__name__}: {e}", {"ns": ns, "nsites": nsites})
+            shutil.rmtree(d, ignore_errors=True)
+            continue
+        end = world.project(d)
         if not (mid["bin"] == "A" and mid["cbin"] == "C" and end["bin"] == "C" and end["cbin"] == "A" and end["ch"] == "A"):
             ctx.violation("compress:RoundTrip", f"compress->decompress ns={ns} nc={nsites + 1}: directory {mid} then {end}",
                           {"ns": ns, "nsites": nsites})
@@ -733,8 +805,11 @@ def _same(x, y):
         return isinstance(x, tuple) and isinstance(y, tuple) and len(x) == len(y) and all(_same(a, b) for a, b in zip(x, y))
     if x is None or y is None:
         return x is None and y is None
-    x, y = np.asarray(x), np.asarray(y)
-    return x.shape == y.shape and x.dtype == y.dtype and np.array_equal(x, y)
+    try:
+        x, y = np.asarray(x), np.asarray(y)
+        return x.shape == y.shape and x.dtype == y.dtype and bool(np.array_equal(x, y))
+    except Exception:       # (ragged / incomparable objects came back: not the same thing through the reader)
+        return False
 
 
 def other_selectors(ctx, world, p, sb, sc, full, cases):
@@ -789,10 +864,10 @@ def other_selectors(ctx, world, p, sb, sc, full, cases):
             ctx.violation("compress:Transparent:raise", f"{form} {sel} csel={csel} ns={ns}: {type(e).__name__}: {e}", scen)
             continue
         if want is not None:
-            data_b = gb[0] if isinstance(gb, tuple) else gb
-            if not (data_b.shape == want.shape and np.array_equal(data_b, want)):
+            data_b = (gb[0] if gb else None) if isinstance(gb, tuple) else gb
+            if not _is(data_b, want):
                 ctx.violation("bin:slice", f"Reader(bin) {form} {sel} csel={csel} ns={ns} differs from NumPy semantics: shape "
-                              f"{data_b.shape} vs {want.shape}", scen)
+                              f"{_shp(data_b)} vs {want.shape}", scen)
         if not _same(gb, gc):
             key = "cbin:negative-step-sample-slice" if (st is not None and st < 0 and form != "int") else "cbin:slice"
             ctx.violation(key, f"Reader(cbin) {form} {sel} csel={csel} differs from Reader(bin) ns={ns} chunk={CHUNK}", scen)
@@ -804,7 +879,7 @@ def default_arguments(ctx, rng):
     (keep_original=True, mtscomp's own chunk length and thread count), and a multi-threaded multi-chunk compression"""
     import spikeglx as sg
     for ns, nsites, kw in ((11, 4, {}), (23, 3, dict(chunk_duration=CHUNK / 30000, n_threads=3)), (7, 384, {})):
-        world = World(Path(ctx.scratch) / f"k{ns}_{nsites}", ns, rng, nsites=nsites)
+        world = new_world(ctx, Path(ctx.scratch) / f"k{ns}_{nsites}", ns, rng, nsites=nsites)
         d = Path(ctx.scratch) / f"kdir{ns}_{nsites}"
         st = {n: "A" for n in NAMES}
         st.update({"bin": "C", "meta": "C"})
@@ -843,7 +918,7 @@ def uuid_names(ctx, rng):
     compressed file and the header must still find each other"""
     import uuid
     import spikeglx
-    world = World(Path(ctx.scratch) / "wu", 12, rng)
+    world = new_world(ctx, Path(ctx.scratch) / "wu", 12, rng)
     d = Path(ctx.scratch) / "udir"
     st = {n: "A" for n in NAMES}
     st.update({"bin": "C", "cbin": "C", "ch": "C", "meta": "C"})
@@ -949,7 +1024,7 @@ def replay(ctx, sc):
     rng = np.random.default_rng(ctx.seed)
     if "trace" in sc:
         t = sc["trace"]
-        world = World(Path(ctx.scratch) / "w", t["ns"], rng)
+        world = new_world(ctx, Path(ctx.scratch) / "w", t["ns"], rng)
         d = Path(ctx.scratch) / "dir"
         tr = (resolve_record(world, d, t["pre"], t.get("var")) if t["op"] == "resolve"
               else one_call(world, d, t["pre"], t["op"], t["keep"], t["fail_at"], t.get("var")))
@@ -958,5 +1033,7 @@ def replay(ctx, sc):
         if tr["exc"]:
             ctx.violation("compress:UnexpectedException", f"{describe(tr)}: {tr['exc']}", sc)
         report(ctx, [tr], judge(ctx, [tr], "replay"))
+    elif "reference" in sc:
+        new_world(ctx, Path(ctx.scratch) / "w", sc["reference"][0], rng, nsites=sc["reference"][1])
     else:
         transparency(ctx, rng)
